@@ -93,10 +93,32 @@ def r13_2(prog: Program, rep: Report):
     rep.check(ok and bool(shapes), "R13.2", f.qualname, f.loc, "load returns its argument itself unless istexttype(val.__class__)", "load can alter a non-text value (a path not dominated by istexttype(val.__class__) does not return val itself)")
 
 
+def r13_4(prog: Program, rep: Report):
+    """The None routine accepts the None object only — never text that the loader reads as null."""
+    rows = C.handlers(prog, "unmarshal")
+    nr = [r for r in rows if r.pred_name == "isnonetype" and r.routine]
+    if not nr:
+        rep.violated("R13.4", "typelib.unmarshals.api._HANDLERS", rows[0].loc, "no None row")
+        return
+    c = nr[0].routine
+    f = C.call_of(prog, c)
+    ok = True
+    found = False
+    for p in P.paths_of(prog, f):
+        for g, pol in p.guards():
+            if g[0] == "cmp" and g[1] in ("is", "isnot", "==", "!=") and g[3] == ("const", None):
+                found = True
+                if T.contains(g[2], lambda s: T.is_call_to(s, f"{C.SERDES}.load", f"{C.SERDES}.strload")):
+                    ok = False
+    rep.check(found and ok, "R13.4", c.qualname, f.loc, "None is recognised on the (decoded) input itself", "the None routine runs the JSON/literal loader first: the valid strings 'null' and 'None' of an Optional[str] (whose None member is tried first) come back as None", detail="subject")
+
+
 def run(prog: Program, rep: Report, tier: str):
+    rep.rule("R13.4", "the None member accepts the None object only, not text that parses as null", floor=1)
     rep.rule("R13.1", "identity check precedes any lossy text decode for families with text-like members", floor=1)
     rep.rule("R13.2", "serdes.load is the identity off text", floor=1)
     rep.rule("R13.3", "content peek guarded for classes with a definite strategy (shared with R18.3)", floor=1)
     r13_1(prog, rep)
     r13_2(prog, rep)
     c18.r18_3(prog, rep, rule="R13.3")
+    r13_4(prog, rep)
